@@ -15,15 +15,17 @@ META = {
             "order, returns to its start when closed and loses no point; ContourPoint::transform is the stated "
             "formula, the same expression tree as kurbo's Affine * Point, and AffineTransform <-> kurbo::Affine is "
             "the identity both ways. The model is tied to the code on every run: every type sequence up to length "
-            "6 (quick) / 8 (thorough) and random longer contours with arbitrary finite doubles go through "
+            "7 (quick) / 9 (thorough) and random longer contours with arbitrary finite doubles go through "
             "Contour::new + to_kurbo, through Glyph::parse_raw + to_kurbo and through the model and the "
-            "specification evaluated with Coq's primitive floats (element lists compared bit-exactly via "
-            "fingerprints); 10^5 / 10^7 random transform x point pairs are compared bit-exactly among "
-            "ContourPoint::transform, kurbo::Affine * Point and the Coq model.",
+            "specification evaluated with Coq's primitive floats; 10^6 / 10^7 random transform x point pairs are "
+            "compared bit-exactly among ContourPoint::transform, kurbo::Affine * Point and the Coq model. Both sides "
+            "derive the inputs from the run's key; results are compared as 63-bit fingerprints of the f64 bit "
+            "patterns folded per block; differing blocks are opened case by case and the implementation's path is "
+            "judged in Coq against every outline the specification allows (any on-curve start point).",
     "note": "Trusted: Coq kernel + VM incl. primitive float/int evaluation (hardware binary64, same as rustc's); the "
-            "hand-written model of src/glyph/mod.rs (tied by the differential run, not by proof); per-case 6-bit "
-            "fingerprints (a differing case is missed with probability 1/64; systematic deviations touch many cases); "
-            "the harness's glif rendering; f64 Debug formatting / parsing round trip.",
+            "hand-written model of src/glyph/mod.rs (tied by the differential run, not by proof); the fingerprint "
+            "function (63 bits per case, collision probability negligible); the harness's glif rendering; f64 "
+            "Debug formatting / parsing round trip.",
 }
 COQ_TARGETS = ["Props/C20.vo", "Run/C20.vo"]
 PROPS_FILES = ["C20"]
@@ -115,14 +117,14 @@ def run(ctx, known, built):
             shards.append(("exh", n, b, cnt, BE, "(exh_model %d%%nat)" % n, "(exh_spec %d%%nat)" % n, em[k0:k1], es[k0:k1]))
     rm = ints(os.path.join(out, "rand_model.txt"))
     rs = ints(os.path.join(out, "rand_spec.txt"))
-    RS = 5000 if ctx.thorough() else 1000
+    RS = 5000 if ctx.thorough() else 2500
     for b in range(0, summ["random_contours"], RS):
         cnt = min(RS, summ["random_contours"] - b)
         shards.append(("rand", None, b, cnt, BR, "(rand_model %d)" % key, "(rand_spec %d)" % key,
                        rm[b // BR:(b + cnt + BR - 1) // BR], rs[b // BR:(b + cnt + BR - 1) // BR]))
     tr = ints(os.path.join(out, "tr.txt"))
     trk = ints(os.path.join(out, "tr_kurbo.txt"))
-    TS = 250000 if ctx.thorough() else 12500
+    TS = 250000 if ctx.thorough() else 62500
     for b in range(0, summ["transforms"], TS):
         cnt = min(TS, summ["transforms"] - b)
         shards.append(("tr", None, b, cnt, BT, "(tr_h %d)" % key, "(trk_h %d)" % key,
